@@ -65,6 +65,7 @@ func nanOpt(on bool) []wkbcommon.WKBOption {
 }
 
 func c03Marshal(t geom.T, cs c03Case) ([]byte, error) {
+	failWKB() // two-call history: an encode that fails after partial output comes first (poison.go)
 	if cs.Ext {
 		return ewkb.Marshal(t, bo(cs.XDR))
 	}
